@@ -153,7 +153,7 @@ def main(tier, seed, replay=None):
             import solverhist
             facs = [("Solver", lambda: claripy.Solver()), ("SolverCacheless", lambda: claripy.SolverCacheless()),
                     ("SolverComposite", lambda: claripy.SolverComposite())]
-            hf = solverhist.run_histories(claripy, drv, rng, facs, 60 if tier == "quick" else 3000, 14, report=rep, tag="c10h",
+            hf = solverhist.run_histories(claripy, drv, rng, facs, 150 if tier == "quick" else 3000, 14, report=rep, tag="c10h",
                                           ops=["add", "add", "eval_bool", "eval_bool", "eval", "is_true", "is_true", "is_true",
                                                "satisfiable", "branch", "downsize"])
             if hf and ("is_true" in hf.get("what", "") or "is_false" in hf.get("what", "")):
